@@ -275,19 +275,34 @@ func TestVerif_C09_Trace(t *testing.T) {
 		// message; every variant uses that same nonce with its own key, i.e. an ordinary counter — a branch on the counter value
 		// (which depends on the hash key, hence on the key) makes the traces differ
 		wrapNonce := ""
-		if (op == "seal" || op == "open") && base.PL >= 16 && gen.Int(t, "wrapgroup", 0, 2) == 0 {
+		if (op == "seal" || op == "open") && gen.Int(t, "wrapgroup", 0, 2) == 0 {
+			// ... or so that the pre-counter block J0 itself — GHASH_H(nonce) for such nonces, a function of the hash key — is a
+			// special block under variant 0's key: all zero, all ones, or the 0^96||1 a 12-byte zero nonce would give
+			j0kind := gen.Pick(t, "j0kind", "wraps", "wraps", "zero", "zero", "ones", "0^96||1")
+			if base.PL < 16 && j0kind == "wraps" {
+				j0kind = "zero"
+			}
 			base.NL = 16
 			var k0 [16]byte
 			verifFill(k0[:], "seed:1", 1)
 			j0 := make([]byte, 16)
-			verifFill(j0, "seed:3", 11)
-			j := gen.Uniform(t, "wrapdist", 0, (base.PL+15)/16-1)
-			j0[12], j0[13], j0[14], j0[15] = 0xff, 0xff, 0xff, byte(0xff-j)
-			if j > 255 {
-				j0[14], j0[15] = byte(0xff-j>>8), byte(0xff-j)
+			switch j0kind {
+			case "wraps":
+				verifFill(j0, "seed:3", 11)
+				j := gen.Uniform(t, "wrapdist", 0, (base.PL+15)/16-1)
+				j0[12], j0[13], j0[14], j0[15] = 0xff, 0xff, 0xff, byte(0xff-j)
+				if j > 255 {
+					j0[14], j0[15] = byte(0xff-j>>8), byte(0xff-j)
+				}
+			case "ones":
+				for i := range j0 {
+					j0[i] = 0xff
+				}
+			case "0^96||1":
+				j0[15] = 1
 			}
 			wrapNonce = "hex:" + hex.EncodeToString(gcmref.SolveNonce16(sm4ref.New(k0[:]), j0))
-			base.Group = fmt.Sprintf("%sAsm pt=%d aad=%d nonce=16(fixed, wraps for variant 0) tag=%d forged=%v", op, base.PL, base.AL, base.Tag, base.Forge >= 0)
+			base.Group = fmt.Sprintf("%sAsm pt=%d aad=%d nonce=16(fixed, J0 %s for variant 0) tag=%d forged=%v", op, base.PL, base.AL, base.Tag, base.Forge >= 0)
 		}
 		extreme := false
 		var es []verifC09Entry
